@@ -27,6 +27,7 @@ THEOREMS = ["C18_identity", "C18_command_position", "C18_command_agrees_git", "C
             "C18_globals_agree_with_git", "C18_refuted_version_help", "C18_refuted_help_reorder",
             "C18_refuted_path_query_dropped", "C18_refuted_version_drops_args", "C18_refuted_full_statement",
             "C18_refuted_shadow", "C18_alias_tokens_roundtrip", "C18_alias_cycle_terminates",
+            "C18_alias_split_agrees", "C18_alias_shell_none", "C18_alias_split_refuted", "C18_ex_alias_no_edge",
             "C18_ex_identity_hyp", "C18_ex_command_position", "C18_ex_meta_last",
             "C18_ex_alias_roundtrip_hyp", "C18_ex_alias_cycle"]
 CLAIM = {
@@ -174,11 +175,68 @@ def rust_ws(c):
     return (9 <= o <= 13) or o in (32, 0x85, 0xA0, 0x1680, 0x2028, 0x2029, 0x202F, 0x205F, 0x3000) or 0x2000 <= o <= 0x200A
 
 
-def alias_value_edge(v):
-    """decidable known class K5: values git's split_cmdline reads differently from the proxy"""
-    t = v.lstrip(" \t\n\r")
-    return (any(rust_ws(c) and c not in " \t\n\r" for c in v) or v.endswith("\\") or
-            (v != "" and v[-1] in " \t\n\r") or '""' in v or "''" in v or t != v.lstrip() or v.strip() == "")
+def rust_trim_start(v):
+    i = 0
+    while i < len(v) and rust_ws(v[i]):
+        i += 1
+    return v[i:]
+
+
+def alias_edge_py(v):
+    """Python transcription of Model/Cli.v alias_edge (fallback when the model did not build, and cross-check):
+    git would push an empty word / an unquoted char is blank for Rust only / unquoted trailing backslash"""
+    cur_empty, q, esc, ab = True, None, False, False
+    for c in v:
+        if esc:
+            cur_empty, esc, ab = False, False, False
+        elif q is None:
+            if c in " \t\n\r":
+                if not ab and cur_empty:
+                    return True
+                cur_empty, ab = True, True
+            elif rust_ws(c):
+                return True
+            elif c in "'\"":
+                q, ab = c, False
+            elif c == "\\":
+                esc, ab = True, False
+            else:
+                cur_empty, ab = False, False
+        elif c == q:
+            q = None
+        elif c == "\\" and q != "'":
+            esc = True
+        else:
+            cur_empty = False
+    if q is not None:
+        return False
+    return True if esc else cur_empty
+
+
+def parse_sq(out):
+    """inverse of git's sq_quote_argv (rev-parse --sq-quote): ' 'a' 'b'\\''c'\n' -> ['a', "b'c"]; None if malformed"""
+    if out.endswith("\n"):
+        out = out[:-1]
+    words, i, n = [], 0, len(out)
+    while i < n:
+        if out[i] != " " or i + 1 >= n or out[i + 1] != "'":
+            return None
+        i += 1
+        w = []
+        while i < n and out[i] != " ":
+            if out[i] == "'":
+                j = out.find("'", i + 1)
+                if j < 0:
+                    return None
+                w.append(out[i + 1:j])
+                i = j + 1
+            elif out[i] == "\\" and i + 1 < n:
+                w.append(out[i + 1])
+                i += 2
+            else:
+                return None
+        words.append("".join(w))
+    return words
 
 
 # ------------------------------------------------------------------ the oracle's port of git 2.39 git.c
@@ -241,9 +299,9 @@ def git_alias_expand(tbl, argv, builtins):
             return ("die", "alias loop")
         seen.append(cmd)
         val = last[cmd]
-        if val.lstrip(" \t\n\r").startswith("!"):
+        if val.startswith("!"):
             return ("shell", None)
-        toks = split_cmdline(val.lstrip(" \t\n\r"))
+        toks = split_cmdline(val)
         if toks is None:
             return ("die", "bad alias string")
         n, env, st = git_handle_options(toks)
@@ -251,7 +309,7 @@ def git_alias_expand(tbl, argv, builtins):
             return ("die", "option in alias")
         if env:
             return ("die", "alias changes environment variables")
-        if n >= len(toks):
+        if n >= len(toks) or toks[n] == "":
             return ("die", "empty alias")
         if toks[n] == cmd:
             return ("die", "recursive alias")
@@ -525,34 +583,114 @@ def run(ctx):
                 q = ra.pick(["'", '"', ""])
                 parts.append(q + (w if q else w.replace(" ", "")) + q)
             avals.append(ra.pick([" ", "  ", "\t"]).join(p for p in parts if p))
+    # well-formed quoted values with backslashes inside single quotes, inside double quotes and unquoted
+    avals += ["'a\\b'", '"a\\\\b"', "x 'c\\' y", '"a\\"b" c', "a\\ b\\'c", "'it''s' \"x\\y\"", "rev-parse '\\' \"\\\\\"",
+              "log '--format=%H\\n%s' \"--grep=a\\ b\""]
+    for _ in range(700 if quick else 40000):
+        words = []
+        for _ in range(ra.range(1, 4)):
+            segs = []
+            for _ in range(ra.range(1, 3)):
+                kind = ra.weighted([(2, "plain"), (3, "sq"), (3, "dq"), (1, "esc")])
+                if kind == "plain":
+                    segs.append("".join(ra.pick(list("ab-=%:")) for _ in range(ra.range(1, 3))))
+                elif kind == "sq":
+                    segs.append("'" + "".join(ra.pick(["a", "b", " ", "\\", '"', "=", "\u00a0"]) for _ in range(ra.range(1, 5))) + "'")
+                elif kind == "dq":
+                    segs.append('"' + "".join(ra.pick(["a", " ", "\\\\", '\\"', "\\a", "'", "\\ ", "\\'"]) for _ in range(ra.range(1, 5))) + '"')
+                else:
+                    segs.append(ra.pick(["\\ ", "\\\\", "\\'", '\\"', "\\a", "\\\t"]))
+            words.append("".join(segs))
+        avals.append(ra.pick([" ", " ", "  ", "\t", " \n"]).join(words))
+    n_bsq = 708 if quick else 40008
     acases = [(str(i), C.sx(C.cps(v))) for i, v in enumerate(avals)]
     aimpl = C.run_cases(C.VHARNESS, "c18-alias-tokens", acases)
     amodel = C.run_cases(C.driver_path("cli"), "c18-alias-tokens", acases) if ctx.model_ok else {}
     plain_set = {" ".join(t): t for t in plain_lists}
-    n_alias_edge = 0
+
+    def so(x):
+        return None if x == "none" else dec_list(x[1])
+
+    def model_alias(line):
+        """-> (tokens-text, git_split, edge, shell) from a model output line"""
+        xs = C.sx_parse_many(line)
+        f = {x[0]: x[1] for x in xs[1:]}
+        return C.sx(xs[0]), so(f["gsplit"]), f["edge"] == 1, f["shell"] == 1
+
+    K5 = ("C18-K5 alias value tokenised differently from git's split_cmdline "
+          "(empty quoted argument, leading/trailing blank, trailing backslash, non-ASCII blank)")
+    zz_prefix = "rev-parse --sq-quote "
+
+    def real_git_words(v):
+        """what /usr/bin/git's split_cmdline makes of v: words, or None (bad alias string)"""
+        g.set_aliases([("zz", zz_prefix + v)])
+        rc, o, e = g.run(["zz"])
+        if "bad alias.zz string" in e:
+            return None
+        return parse_sq(o) if rc == 0 else ("?", rc, o, e)
+
+    n_alias_edge = n_alias_nonedge = n_alias_diff_known = 0
+    port_vs_model = []
+    edge_of, gsplit_of = {}, {}
     for i, v in enumerate(avals):
         out = aimpl.get(str(i))
         if out is None or out == "panic":
             violations.append((f"parse_alias_tokens panicked on {v!r}", {"kind": "alias-tokens", "value": v, "impl": out}))
             continue
-        if ctx.model_ok and amodel.get(str(i)) != out:
-            mismatches.append((str(i), f"alias tokens differ on {v!r}: impl {out[:80]} model {str(amodel.get(str(i)))[:80]}"))
         got = None if out == "none" else dec_list(C.sx_parse_many(out)[0][1])
-        if got is not None and got:
+        edge, gs, shell = alias_edge_py(v), split_cmdline(v), rust_trim_start(v).startswith("!")
+        if ctx.model_ok and str(i) in amodel:
+            mt, mgs, medge, mshell = model_alias(amodel[str(i)])
+            if mt != out:
+                mismatches.append((str(i), f"alias tokens differ on {v!r}: impl {out[:80]} model {mt[:80]}"))
+            if (mgs, medge, mshell) != (gs, edge, shell):
+                port_vs_model.append(f"{v!r}: model {(mgs, medge, mshell)} python {(gs, edge, shell)}")
+            gs, edge, shell = mgs, medge, mshell          # the extracted definitions decide
+        edge_of[v], gsplit_of[v] = edge, gs
+        if got:
             distinct.add(("alias", v))
         if v in plain_set and got != plain_set[v]:
             violations.append((f"plain alias value {v!r} tokenised as {got}", {"kind": "alias-tokens", "value": v, "tokens": got}))
-        shell = v.lstrip(" \t\n\r").startswith("!")
-        want_t = None if shell else split_cmdline(v.lstrip(" \t\n\r"))
-        if got != want_t and not (shell and got is None):
-            if alias_value_edge(v) or want_t is None or got is None:
-                n_alias_edge += 1
-                if got is not None and want_t is not None:
-                    known_seen.add("C18-K5 alias value tokenised differently from git's split_cmdline "
-                                   "(empty quoted argument, trailing blank or backslash, non-ASCII blank)")
-            else:
-                violations.append((f"alias value {v!r}: proxy tokens {got}, git split_cmdline {want_t}",
-                                   {"kind": "alias-tokens", "value": v, "tokens": got, "git_tokens": want_t}))
+        if shell:
+            if got is not None:
+                violations.append((f"shell alias {v!r} is tokenised ({got}) instead of being left to git",
+                                   {"kind": "alias-tokens", "value": v, "tokens": got}))
+        elif edge:
+            n_alias_edge += 1
+            if got != gs:
+                n_alias_diff_known += 1
+                known_seen.add(K5)
+        else:
+            n_alias_nonedge += 1
+            if got != gs:
+                rg = real_git_words(v) if len(violations) < 8 else "not run"
+                violations.append((f"alias value {v!r}: the proxy splits it into {got}, git's split_cmdline into {gs} "
+                                   f"(real git: {rg})",
+                                   {"kind": "alias-tokens", "value": v, "tokens": got, "git_split": gs,
+                                    "real_git_words": rg, "alias_edge": False}))
+    if ctx.model_ok:
+        obligations.append(("tie:python ports of git_split / alias_edge agree with the extracted definitions",
+                            not port_vs_model, "; ".join(port_vs_model[:3])))
+    # the model of git validated against git itself: rev-parse --sq-quote prints the words git made of the value
+    pick = list(range(len(avals) - n_bsq, len(avals)))[: (160 if quick else 2500)] + list(range(0, 25)) \
+        + [i for i in range(25, len(avals) - n_bsq)][: (90 if quick else 1500)]
+    pick = [i for i in pick if "\x00" not in avals[i] and "\r" not in avals[i]]
+    zcases = [("z%d" % i, C.sx(C.cps(zz_prefix + avals[i]))) for i in pick]
+    zmodel = C.run_cases(C.driver_path("cli"), "c18-alias-tokens", zcases) if ctx.model_ok else {}
+    gsplit_bad = []
+    n_git_split_checked = 0
+    for i in pick:
+        v = avals[i]
+        pred = model_alias(zmodel["z%d" % i])[1] if ("z%d" % i) in zmodel else split_cmdline(zz_prefix + v)
+        want_w = None if pred is None else pred[2:]
+        rg = real_git_words(v)
+        n_git_runs += 1
+        n_git_split_checked += 1
+        if rg != want_w:
+            gsplit_bad.append(f"{v!r}: git_split predicts {want_w}, /usr/bin/git gives {rg}")
+    g.set_aliases([])
+    obligations.append(("monitor:git_split (model of git's split_cmdline) agrees with /usr/bin/git (rev-parse --sq-quote)",
+                        not gsplit_bad, "; ".join(gsplit_bad[:3])))
 
     # ================= 4. alias resolution: correspondence + differential against git's own expansion
     builtins = set(g.run(["--list-cmds=main"])[1].split())
@@ -563,6 +701,13 @@ def run(ctx):
                "!echo hi", "rev-parse \"unbalanced", "rev-parse --git-dir \"\"", "rev-parse --git-dir ",
                "rev-parse\u00a0--git-dir", "-C . rev-parse --git-dir", "--help", "--version"]
     rres = r.fork("resolve")
+    tm = C.run_cases(C.driver_path("cli"), "c18-alias-tokens",
+                     [("t%d" % i, C.sx(C.cps(v))) for i, v in enumerate(TARGETS)]) if ctx.model_ok else {}
+    for i, v in enumerate(TARGETS):
+        edge_of[v] = model_alias(tm["t%d" % i])[2] if ("t%d" % i) in tm else alias_edge_py(v)
+
+    def value_edge(v):
+        return edge_of[v] if v in edge_of else alias_edge_py(v)
     rcases = []
     fixed = [([("status", "log --oneline -1")], ["status", "--short"]),
              ([("x", "y"), ("y", "x")], ["x"]), ([("x", "x")], ["x", "-a"]),
@@ -628,9 +773,8 @@ def run(ctx):
             vals = [last[n] for n in names]
             if names & builtins:
                 known_seen.add("C18-K3 an alias that shadows a builtin is expanded by the proxy (git runs the builtin)")
-            elif any(alias_value_edge(v) for v in vals):
-                known_seen.add("C18-K5 alias value tokenised differently from git's split_cmdline "
-                               "(empty quoted argument, trailing blank or backslash, non-ASCII blank)")
+            elif any(value_edge(v) for v in vals):
+                known_seen.add(K5)
             elif opt_str(fields(out)["cmd"]) not in builtins and ga[0] == gb[0] and \
                     "is not a git command" in ga[2] and "is not a git command" in gb[2]:
                 known_seen.add("C18-K7 alias expanding to an unknown command: git's diagnostic names the alias, "
@@ -853,14 +997,16 @@ def run(ctx):
             "input_distribution": {"oracle_class": dist, "exhaustive_vectors": n_exh,
                                    "random_vectors": len(vecs) - n_exh - len(corpus),
                                    "git_differential_vectors": len(dvecs), "changed_by_proxy": n_diff_changed,
-                                   "alias_values": len(avals), "alias_tables": len(rcases),
+                                   "alias_values": len(avals), "alias_values_quoted_with_backslashes": n_bsq,
+                                   "alias_values_edge": n_alias_edge, "alias_values_non_edge(exact git_split oracle)": n_alias_nonedge,
+                                   "git_split_checked_against_real_git": n_git_split_checked, "alias_tables": len(rcases),
                                    "alias_chain_tables": len(chains), "alias_chains_git_accepts(exact vector oracle)": n_chain_exact,
                                    "alias_chains_git_refuses(K6)": n_chain_k6, "alias_chain_git_runs": n_chain_git,
                                    "alias_chain_pty_runs": n_chain_pty, "alias_chain_e2e_runs": n_chain_e2e,
                                    "alias_git_differentials": n_alias_git, "e2e_runs": n_e2e, "git_runs": n_git_runs},
             "hypothesis_hit_rate": {"no_pre_command_meta": f"{n_same}/{len(vecs)}", "meta_last": f"{n_norm}/{len(vecs)}",
                                     "Known_C18": f"{n_known}/{len(vecs)}"},
-            "oracle_failures_in_known_classes": n_known_fail + n_alias_edge,
+            "oracle_failures_in_known_classes": n_known_fail + n_alias_diff_known,
             "correspondence_mismatches": len(mismatches),
             "exhaustive_bound": 4 if quick else 5,
         },
